@@ -92,7 +92,7 @@ def handleStatus (P : ILP) (pinf ninf : Rat) (isDbl : Bool) (st : Stage) (c : Ca
         | none => .next { c with status := lpUnsolved, lastStatus := lpUnsolved }
       else .next { c with status := st.bstat.status }
   else if st.fstatus = lpInfeasible then
-    if st.infeasFail then (if isDbl then .next c else .done (errOut c)) else
+    if st.infeasFail then (if isDbl then .next c else .next { c with status := lpInfeasible }) else
     if infeasibleTest P pinf ninf st.y then
       .done { rval := 0, status := lpInfeasible, yOut := some st.y, basis := c.basis, cert := .infeasible st.y }
     else
